@@ -16,7 +16,7 @@
 #include <string.h>
 
 static PSocket *lsock; static PSocketAddress *laddr;
-static int MSG, CHUNK, RBUF, CBLK, SBLK, FAM = 4, TMO;
+static int MSG, CHUNK, RBUF, CBLK, SBLK, FAM = 4, TMO, USE_RFROM;
 static unsigned char sent[64], got[64]; static int nsent, ngot;
 static PSocketFamily fam(void) { return FAM == 6 ? P_SOCKET_FAMILY_INET6 : P_SOCKET_FAMILY_INET; }
 static const char *lo(void) { return FAM == 6 ? "::1" : "127.0.0.1"; }
@@ -64,7 +64,7 @@ static void *server(void *arg)
     p_socket_set_blocking(a, SBLK); if (TMO) p_socket_set_timeout(a, TMO);
     for (;;) {
         pssize r; e = NULL; call_t0 = ksim_clock_ms;
-        r = p_socket_receive(a, buf, RBUF, &e);
+        if (USE_RFROM) { PSocketAddress *from = NULL; r = p_socket_receive_from(a, &from, buf, RBUF, &e); p_socket_address_free(from); } else r = p_socket_receive(a, buf, RBUF, &e);
         if (r < 0) {
             if (!SBLK && e && p_error_get_code(e) == (pint)P_ERROR_IO_WOULD_BLOCK) { p_error_free(e); e = NULL; if (!p_socket_io_condition_wait(a, P_SOCKET_IO_CONDITION_POLLIN, &e)) { bad_error("server", "io_condition_wait", e, 1); mc_fail("C09", "stream/wait-failed", "io_condition_wait(POLLIN) failed"); } mc_nontrivial(3); continue; }
             bad_error("server", "receive", e, SBLK);
@@ -90,7 +90,7 @@ static void sigpipe_state(void) { struct sigaction sa; sigaction(SIGPIPE, NULL, 
 static void h_stream(int argc, char **argv)
 {
     int i, a, b;
-    MSG = argc > 0 ? atoi(argv[0]) : 9; CHUNK = argc > 1 ? atoi(argv[1]) : 3; RBUF = argc > 2 ? atoi(argv[2]) : 4; CBLK = argc > 3 ? atoi(argv[3]) : 1; SBLK = argc > 4 ? atoi(argv[4]) : 1; FAM = argc > 5 ? atoi(argv[5]) : 4; TMO = argc > 6 ? atoi(argv[6]) : 0;
+    MSG = argc > 0 ? atoi(argv[0]) : 9; CHUNK = argc > 1 ? atoi(argv[1]) : 3; RBUF = argc > 2 ? atoi(argv[2]) : 4; CBLK = argc > 3 ? atoi(argv[3]) : 1; SBLK = argc > 4 ? atoi(argv[4]) : 1; FAM = argc > 5 ? atoi(argv[5]) : 4; TMO = argc > 6 ? atoi(argv[6]) : 0; USE_RFROM = argc > 7 ? atoi(argv[7]) : 0;
     sigpipe_state();
     for (i = 0; i < MSG; i++) sent[i] = (unsigned char)(i * 7 + 3);
     listen_setup(P_SOCKET_TYPE_STREAM);
@@ -103,6 +103,40 @@ static void h_stream(int argc, char **argv)
     p_socket_free(lsock); p_socket_address_free(laddr);
     mc_nontrivial(0);
     mc_outcome("ok %d bytes", ngot);
+}
+
+/* ------------------------------------------------------------------ half close: send request, shut down the write side, read the reply until end of stream */
+static unsigned char reply[16]; static int nreply;
+static void *hc_server(void *arg)
+{
+    PSocket *a = p_socket_accept(lsock, NULL); char buf[16]; int n = 0; pssize r; (void)arg;
+    if (!a) mc_fail("C09", "stream/accept-failed", "accept failed");
+    while ((r = p_socket_receive(a, buf, sizeof buf, NULL)) > 0) n += (int)r;          /* request until the client's FIN */
+    if (r < 0) mc_fail("C09", "halfclose/server-receive-failed", "server receive failed");
+    { int off = 0; while (off < 6) { r = p_socket_send(a, (pchar *)"REPLY!" + off, 6 - off, NULL); if (r <= 0) mc_fail("C09", "halfclose/server-send-failed", "server send failed"); off += (int)r; } }
+    p_socket_free(a);                          /* reply and FIN are now queued for the client */
+    return NULL;
+}
+static void h_halfclose(int argc, char **argv)
+{
+    PSocket *c; PError *e = NULL; int t; char buf[8]; pssize r; (void)argc; (void)argv;
+    sigpipe_state(); listen_setup(P_SOCKET_TYPE_STREAM);
+    t = mc_thread_create(hc_server, NULL);
+    c = p_socket_new(fam(), P_SOCKET_TYPE_STREAM, P_SOCKET_PROTOCOL_TCP, NULL);
+    if (!c || !p_socket_connect(c, laddr, NULL)) mc_fail("C09", "stream/connect-failed", "connect failed");
+    { int off = 0; while (off < 2) { r = p_socket_send(c, (pchar *)"rq" + off, 2 - off, NULL); if (r <= 0) mc_fail("C09", "halfclose/setup", "request send failed"); off += (int)r; } }
+    if (!p_socket_shutdown(c, FALSE, TRUE, NULL)) mc_fail("C09", "halfclose/setup", "shutdown(write) failed");
+    for (;;) {
+        e = NULL; r = p_socket_receive(c, buf, 4, &e);
+        if (r < 0) { bad_error("client", "receive", e, 1); mc_fail("C09", "halfclose/receive-failed", "receive after shutdown(write) failed with code %d native %d although %d of 6 reply bytes were read so far (reply bytes and the peer's end of stream are pending)", e ? p_error_get_code(e) : 0, e ? p_error_get_native_code(e) : 0, nreply); }
+        if (r == 0) break;
+        memcpy(reply + nreply, buf, (size_t)r); nreply += (int)r;
+    }
+    mc_thread_join(t);
+    if (nreply != 6 || memcmp(reply, "REPLY!", 6)) mc_fail("C09", "stream/bytes-lost", "client read %d of the 6 reply bytes before end of stream", nreply);
+    p_socket_free(c); p_socket_free(lsock); p_socket_address_free(laddr);
+    mc_nontrivial(0);
+    mc_outcome("reply ok");
 }
 
 /* ------------------------------------------------------------------ datagrams */
@@ -173,5 +207,5 @@ static void h_peergone(int argc, char **argv)
     mc_outcome("errors=%d", errors);
 }
 
-static const McHarness HS[] = { {"stream", h_stream, "<msglen> <sendchunk> <recvbuf> <cli-blocking> <srv-blocking> <family>"}, {"dgram", h_dgram, "<recvbuf> <family>"}, {"peergone", h_peergone, ""} };
-int main(int argc, char **argv) { return mc_main(argc, argv, HS, 3); }
+static const McHarness HS[] = { {"stream", h_stream, "<msglen> <sendchunk> <recvbuf> <cli-blocking> <srv-blocking> <family>"}, {"dgram", h_dgram, "<recvbuf> <family>"}, {"peergone", h_peergone, ""}, {"halfclose", h_halfclose, ""} };
+int main(int argc, char **argv) { return mc_main(argc, argv, HS, 4); }
